@@ -397,3 +397,60 @@ func verifH_C13_deepobject_nested_defaults() {
 	verifAssert(err2 == nil && req.URL.RawQuery == raw, "C13 nested deepObject default: the forwarded request validates again and a second validation changes nothing")
 	verifReach("end")
 }
+
+//verif:harness id=C13 tier=quick,thorough witness=end bounds="defaults of parameters defined by content: a query / header / cookie parameter defined by application/json content whose schema has a default (integer 7, string d, object {a: 1}), absent or present (as JSON text), SkipSettingDefaults on/off: a present parameter and a skipped default leave the request as it was; an absent one is added exactly once, as JSON text that decodes to the default (known finding: the default of a content-defined parameter is never applied), and a second validation changes nothing"
+func verifH_C13_content_param_defaults() {
+	in := []string{"query", "header", "cookie"}[verifChoose("in", 3)]
+	var schema *openapi3.Schema
+	var present string
+	switch verifChoose("shape", 3) {
+	case 0:
+		schema, present = &openapi3.Schema{Type: &openapi3.Types{"integer"}, Default: 7.0}, "5"
+	case 1:
+		schema, present = &openapi3.Schema{Type: &openapi3.Types{"string"}, Default: "d"}, `"s"`
+	case 2:
+		schema = &openapi3.Schema{Type: &openapi3.Types{"object"}, Properties: openapi3.Schemas{"a": {Value: &openapi3.Schema{Type: &openapi3.Types{"integer"}}}}, Default: map[string]any{"a": 1.0}}
+		present = `{"a":5}`
+	}
+	param := &openapi3.Parameter{Name: "P", In: in, Content: openapi3.Content{"application/json": &openapi3.MediaType{Schema: &openapi3.SchemaRef{Value: schema}}}}
+	if param.Validate(context.Background()) != nil {
+		return
+	}
+	op := &openapi3.Operation{Parameters: openapi3.Parameters{{Value: param}}}
+	req := &http.Request{Method: "GET", Header: http.Header{}, URL: &url.URL{Path: "/"}}
+	isPresent := verifChoose("present", 2) == 1
+	if isPresent {
+		switch in {
+		case "query":
+			req.URL.RawQuery = "P=" + url.QueryEscape(present)
+		case "header":
+			req.Header["P"] = []string{present}
+		case "cookie":
+			if present != "5" {
+				return // JSON text with quotes or braces is not a cookie value: outside the bound
+			}
+			req.Header["Cookie"] = []string{"P=" + present}
+		}
+	}
+	skip := verifChoose("skip", 2) == 1
+	opts := &Options{SkipSettingDefaults: skip}
+	route := &routers.Route{Spec: &openapi3.T{}, PathItem: &openapi3.PathItem{Get: op}, Operation: op, Method: "GET"}
+	state := func() string {
+		return req.URL.RawQuery + "|" + strings.Join(req.Header["P"], ",") + "|" + strings.Join(req.Header["Cookie"], ",")
+	}
+	before := state()
+	err := ValidateRequest(context.Background(), &RequestValidationInput{Request: req, Route: route, Options: opts})
+	verifAssert(err == nil, "C13 content parameter defaults: an optional parameter that is absent or well-formed validates")
+	if isPresent || skip {
+		verifAssert(state() == before, "C13 content parameter defaults: nothing is written when the parameter is present or default-setting is skipped")
+		verifReach("end")
+		return
+	}
+	verifKnown("C13-content-parameter-default-not-applied", true)
+	verifAssert(state() != before, "C13 content parameter defaults: the default of an absent parameter is added to the forwarded request")
+	verifKnown("C13-content-parameter-default-not-applied", false)
+	after := state()
+	err2 := ValidateRequest(context.Background(), &RequestValidationInput{Request: req, Route: route, Options: opts})
+	verifAssert(err2 == nil && state() == after, "C13 content parameter defaults: the forwarded request validates again and a second validation changes nothing")
+	verifReach("end")
+}
